@@ -65,6 +65,9 @@ CONFIGS = {
     "faultext": (2, 2, False, [[add(2, failkind="ext", fail=2), add(1), incr(2), incr(1), call("wait")]], 3),
     "faultout": (2, 2, False, [[add(2), add(1), incr(2), incr(1), call("wait")], [call("write")]], 3, "auto", 2),
     "three":  (3, 3, False, [[add(1, True), add(1, True), add(1), incr(1), incr(2), incr(3), call("wait")]], 2),
+    # SetPriority on a bar that has left the heap (remove-on-complete): the stale heap index must be ignored
+    "priorm": (2, 2, False, [[add(1, rm=True), add(2), incr(1), {"op": "barwait", "b": 1}, prio(1, 5), incr(2, 2), call("wait")]], 4),
+    "priopop": (2, 2, True, [[add(1), add(2), incr(1), call("wait")], [{"op": "barwait", "b": 1}, prio(1, -3), prio(2, 4), incr(2, 2)]], 4),
 }
 
 
@@ -159,6 +162,8 @@ def scenario(name, sid, steps=None, mode="replay", seed=1, stats=True):
                 ops.append({"op": "prio", "b": "b%d" % o["b"], "n": o["n"], "flag": o.get("drop", False)})
             elif o["op"] == "write":
                 ops.append({"op": "write", "line": "T|%d|%d" % (len(clients), len(ops))})
+            elif o["op"] in ("barwait", "get"):
+                ops.append({"op": o["op"], "b": "b%d" % o["b"]})
             else:
                 ops.append({"op": o["op"]})
         clients.append(ops)
@@ -308,9 +313,10 @@ def check_config(wd, name, workers=8):
             "schedule": counterexample(out) if viol else []}
 
 
-def simulate(wd, name, num, depth, seed):
-    """behaviours of the specification as gate schedules (TLC -simulate)"""
-    mod = write_model(wd, name, spec="SimSpec", invariants="", sim=True, extra_cfg="CONSTRAINT Emit\n")
+def simulate(wd, name, num, depth, seed, det=False):
+    """behaviours of the specification as gate schedules (TLC -simulate); det: prefer steps with a single outcome
+    (no select left to the Go runtime), which the harness can follow to the end"""
+    mod = write_model(wd, name, spec={True: "SimSpecDet", "calm": "SimSpecCalm", "strict": "SimSpecStrict", False: "SimSpec"}[det], invariants="", sim=True, extra_cfg="CONSTRAINT Emit\n")
     rc, out = run_tlc_dir(wd, mod, workers=1, extra=["-simulate", "num=%d" % num, "-depth", str(depth), "-seed", str(seed)], timeout=1200)
     scheds = []
     for m in re.finditer(r'<<\s*"SCHED",\s*"(\w+)",\s*<<(.*?)>>\s*>>', out.replace("\n", " ")):
